@@ -3,6 +3,7 @@ import OmplModel.Proofs.NNGnat
 import OmplModel.Proofs.NNGnatExact
 import OmplModel.Proofs.NNGnatOps
 import OmplModel.Proofs.NNGnatRefine
+import OmplModel.Proofs.NNKCenters
 import Mathlib.Algebra.Order.Ring.Int
 /-!
 C10 — nearest-neighbour structures answer exactly like exhaustive search.
@@ -459,6 +460,177 @@ theorem gnat_variants_agree (ctx : Ctx α D U) (hctx : CtxOK ctx) (hm : MetricOK
 end Metric
 
 end GnatOps
+
+/-! ## round 10: the `dists` matrix of `kcenters`, degenerate degrees, the constructor -/
+
+section KCentersMatrix
+
+/-- **`kcenters` fills the matrix `split` reads, inside its bounds** (`k >= 1`).  `Model/NNKCenters.lean` is
+`GreedyKCenters::kcenters` with its `Eigen` matrix: the `resize` test at the top, the column written by each pass
+of the greedy loop, the final column, every write bounds-checked (`none` = a write outside the matrix) and every cell
+`none` until written.  For EVERY matrix the caller passes, every `k >= 1`, every first centre `< n`: no write leaves
+the matrix; the centres are those of the centres-only model `kcenters` (the object of `kcenters_relation`, used by
+`splitNode`); the matrix is at least `n x k`; every cell `(j, i)` with `i < centers.size()` — exactly the cells
+`Node::split` reads — was written and holds `dist data[j] data[centers[i]]` (the header's contract, and what
+`splitNode` recomputes: the model's "call `dist` again" abstraction is sound); nothing else is written. -/
+theorem kcenters_matrix_exact [LinearOrder D] (dist : α → α → D) (eps : D) (data : List (Elem α)) (k first : Nat)
+    (M0 : Mat D) (hk : 1 ≤ k) (hf : first < data.length) :
+    ∃ M', kcentersM dist eps data k first M0 = some (kcenters dist eps data k first, M') ∧
+      data.length ≤ M'.rows ∧ k ≤ M'.cols ∧
+      (M'.rows, M'.cols) = (if M0.rows < data.length ∨ M0.cols < k then (max (2 * M0.rows + 1) data.length, k)
+        else (M0.rows, M0.cols)) ∧
+      (∀ (i ci : Nat) (c : Elem α) (j : Nat) (x : Elem α), (kcenters dist eps data k first)[i]? = some ci →
+        data[ci]? = some c → data[j]? = some x → M'.cell j i = some (dist x.val c.val)) ∧
+      (∀ a b, (data.length ≤ a ∨ (kcenters dist eps data k first).length ≤ b) →
+        M'.cell a b = (kcResize M0 data.length k).cell a b) := by
+  obtain ⟨M', h1, hr, hc, h2, h3, h4, h5⟩ := kcentersM_spec dist eps data k first M0 hk hf
+  refine ⟨M', h1, h2, h3, ?_, h4, h5⟩
+  rw [hr, hc]
+  unfold kcResize
+  by_cases h : M0.rows < data.length ∨ M0.cols < k
+  · have : (decide (M0.rows < data.length) || decide (M0.cols < k)) = true := by simpa using h
+    rw [if_pos this, if_pos h]; rfl
+  · have : ¬ (decide (M0.rows < data.length) || decide (M0.cols < k)) = true := by simpa using h
+    rw [if_neg this, if_neg h]
+
+/-- non-vacuity: four points with duplicates, `k = 3`, a `0 x 0` matrix passed in: resized to `4 x 3`, two centres
+(the `maxDist < eps` cut-off), column 1 holds the distances to `data[2]`, column 2 is never written. -/
+example : (kcentersM l1 1 [⟨0, (0, 0)⟩, ⟨1, (0, 0)⟩, ⟨2, (5, 5)⟩, ⟨3, (5, 5)⟩] 3 1 (Mat.new 0 0)).map
+    (fun r => (r.1, [r.2.rows, r.2.cols], [r.2.cell 0 1, r.2.cell 3 0, r.2.cell 0 2])) =
+    some ([1, 2], [4, 3], [some (10 : Int), some (10 : Int), none]) := by decide
+
+/-- **`kcenters` with `k = 0` writes outside its matrix** — what `Node::split` does for a node whose `degree_` is 0:
+`Matrix dists(n, 0)`, `kcenters(data_, 0, …)`: no `resize` (0 columns suffice for `k = 0`), the greedy loop does not
+run, the final loop stores `dists(j, 0)`.  Holds for every non-empty data, every first centre. -/
+theorem kcenters_zero_columns_fails [LinearOrder D] (dist : α → α → D) (eps : D) (data : List (Elem α)) (first : Nat)
+    (hf : first < data.length) :
+    kcentersM dist eps data 0 first (Mat.new data.length 0) = none :=
+  kcentersM_zero_fails dist eps data first hf
+
+/-- **A constructor-accepted parameterisation reaches that call (F400).**  `NearestNeighborsGNAT(degree = 2,
+minDegree = 0, maxDegree = 2, maxNumPtsPerLeaf = 1, removedCacheSize = 0)`: after `add 1, 2, 3, 4` (first centre
+`data_[0]`) the tree has a leaf child with `degree_ = min(max(2·|data|/3, 0), 2) = 0` that holds one element, so the
+next element routed to it makes `needToSplit` true (`2 > 1 && 2 > 0`) and `split` calls `kcenters` with `k = 0`
+(`kcenters_zero_columns_fails`).  Replay on the real code: `corpus/C10/f400-min-degree-zero-gnat.txt`. -/
+theorem min_degree_zero_fails :
+    (match (gnatRun (U := Nat) ⟨(Gnat.init (α := Int × Int) (D := Int) 2 0 2 1 0 false).params, l1, 1, fun u n => u % n⟩
+        (childOrder true) [.add (1, 0), .add (2, 0), .add (3, 0), .add (4, 0)] (Gnat.init 2 0 2 1 0 false) [0]).1.tree with
+      | none => false
+      | some t => t.children.any (fun c => c.children.isEmpty && c.degree == 0 && c.data.length == 1 &&
+          needToSplit (Gnat.init (α := Int × Int) (D := Int) 2 0 2 1 0 false).params c.degree (c.data.length + 1) &&
+          (kcentersM l1 1 (c.data ++ [⟨9, (5, 0)⟩]) c.degree 0 (Mat.new (c.data.length + 1) c.degree)).isNone)) = true := by
+  decide
+
+end KCentersMatrix
+
+section Ctor
+variable [CommRing D] [LinearOrder D] [IsStrictOrderedRing D] [BEq α] [LawfulBEq α] {U : Type}
+
+/-- **The invariant is established by the constructor**, and `split` is defined for its parameters iff the user's
+`degree` and `minDegree` are at least 1: `Gnat.init` is the constructor as coded (`minDegree_ = min(degree,
+minDegree)`, `maxDegree_ = max(maxDegree, degree)`, `rebuildSize_ = rebalancing ? leaf·degree : max`). -/
+theorem gnat_ctor_establishes_inv (ctx : Ctx α D U) (degree minDegree maxDegree leaf cache : Nat) (rebal : Bool)
+    (hP : ctx.P = (Gnat.init (α := α) (D := D) degree minDegree maxDegree leaf cache rebal).params) :
+    (Gnat.init (α := α) (D := D) degree minDegree maxDegree leaf cache rebal).Inv ctx ∧
+    (Gnat.init (α := α) (D := D) degree minDegree maxDegree leaf cache rebal).tree = none ∧
+    ((ParamsOK ctx.P ∧ 1 ≤ ctx.P.degree) ↔ (1 ≤ degree ∧ 1 ≤ minDegree)) := by
+  obtain ⟨h1, h2⟩ := Gnat.init_inv ctx degree minDegree maxDegree leaf cache rebal hP
+  refine ⟨h1, h2, ?_⟩
+  rw [hP]
+  exact Gnat.init_paramsOK degree minDegree maxDegree leaf cache rebal
+
+/-- **From the constructor, for every history** (no invariant assumed): a structure constructed with ANY arguments
+`degree >= 1`, `minDegree >= 1` (any `maxDegree`, leaf size — 0 included —, removal-cache size — 0 included —,
+rebalancing on or off), a genuine metric, `0 < eps`, a first-centre choice that is a valid index: after every finite
+sequence of add / add(vector) / remove / clear with every draw sequence, `size()` and `list()` are those of the
+abstract multiset and `nearestK` / `nearestR` are exact over it, for every child order. -/
+theorem gnat_history_from_ctor (ctx : Ctx α D U) (hm : MetricOK ctx.dist) (heps : 0 < ctx.eps)
+    (hpick : ∀ u n, 0 < n → ctx.pick u n < n)
+    (degree minDegree maxDegree leaf cache : Nat) (rebal : Bool) (hdeg : 1 ≤ degree) (hmin : 1 ≤ minDegree)
+    (hP : ctx.P = (Gnat.init (α := α) (D := D) degree minDegree maxDegree leaf cache rebal).params)
+    {ord ordq : Nat → Nat → List Nat} (hord : ∀ sz off, (ord sz off).Perm (List.range sz))
+    (hordq : ∀ sz off, (ordq sz off).Perm (List.range sz)) (ops : List (Op α)) (us : List U)
+    (q : α) (k : Nat) (eps rad : D) :
+    let g := (gnatRun ctx ord ops (Gnat.init degree minDegree maxDegree leaf cache rebal) us).1
+    g.size = (specRun ops).length ∧ (g.list.map (fun e => e.val)).Perm (specRun ops) ∧
+    IsKNearest (fun v => ctx.dist q v) k (specRun ops) ((g.nearestK ctx.dist eps ordq q k).1.map (fun x => x.2.val)) ∧
+    IsRNearest (fun v => ctx.dist q v) rad (specRun ops) ((g.nearestR ctx.dist ordq q rad).1.map (fun x => x.2.val)) := by
+  intro g
+  obtain ⟨hinv, hnone, hiff⟩ := gnat_ctor_establishes_inv ctx degree minDegree maxDegree leaf cache rebal hP
+  obtain ⟨hpar, hd1⟩ := hiff.mpr ⟨hdeg, hmin⟩
+  have hctx : CtxOK ctx := ⟨hpar, hd1, hpick, ⟨hm.self, fun a b => dist_nonneg_of hm.metric hm.self a b, heps⟩⟩
+  obtain ⟨_, _, hs, hl⟩ := gnat_size_list_abs ctx hctx hm hord _ hinv hnone ops us
+  obtain ⟨hk, hr, _, _⟩ := gnat_history_queries_exact ctx hctx hm hord hordq _ hinv hnone ops us q k eps rad
+  exact ⟨hs, hl, hk, hr⟩
+
+/-- non-vacuity: degree 1 (chain trees), leaf size 0, cache 0, rebalancing on — all admitted. -/
+example (ops : List (Op (Int × Int))) (us : List Nat) :
+    (gnatRun ⟨(Gnat.init (α := Int × Int) (D := Int) 1 1 1 0 0 true).params, l1, 1, fun u n => u % n⟩ (childOrder true) ops
+      (Gnat.init 1 1 1 0 0 true) us).1.size = (specRun ops).length :=
+  (gnat_history_from_ctor ⟨(Gnat.init (α := Int × Int) (D := Int) 1 1 1 0 0 true).params, l1, 1, fun u n => u % n⟩
+    sampleCtx_ok.2 (by decide) (fun u n hn => Nat.mod_lt u hn) 1 1 1 0 0 true (by decide) (by decide) rfl
+    (childOrder_perm true) (childOrder_perm true) ops us (0, 0) 0 1 0).1
+
+/-- **Histories that change the distance function.**  Any number of segments, each `setDistanceFunction(f_i)` (GNAT:
+rebuild under the new function if there is a tree) followed by any add / add(vector) / remove / clear sequence; every
+`f_i` a genuine metric, same tree parameters throughout, every draw sequence, every child order: at the end the state
+invariant holds for the LAST function, `list()` is the abstract multiset of the concatenated operations
+(`setDistanceFunction` does not change the contents), and `nearestK` / `nearestR` are exact for the last function.
+(`gnat_set_distance_function` + `gnat_size_list_abs_from`, chained by induction over the segments.) -/
+theorem gnat_history_with_set_distance_function (P : Params) (segs : List (Ctx α D U × List (Op α)))
+    (hall : ∀ s ∈ segs, CtxOK s.1 ∧ MetricOK s.1.dist ∧ s.1.P = P)
+    {ord ordq : Nat → Nat → List Nat} (hord : ∀ sz off, (ord sz off).Perm (List.range sz))
+    (hordq : ∀ sz off, (ordq sz off).Perm (List.range sz))
+    (ctx0 : Ctx α D U) (hP0 : ctx0.P = P) (hm0 : IsMetric ctx0.dist) (hs0 : ∀ a, ctx0.dist a a = 0)
+    (g0 : Gnat α D) (hg0 : g0.Inv ctx0) (h0 : g0.tree = none)
+    (us : List U) (q : α) (k : Nat) (eps rad : D) :
+    let g := (gnatRunSeg ord segs (g0, us)).1
+    let ops := segs.flatMap (fun s => s.2)
+    let d := (lastCtx ctx0 segs).dist
+    g.Inv (lastCtx ctx0 segs) ∧ g.size = (specRun ops).length ∧ (g.list.map (fun e => e.val)).Perm (specRun ops) ∧
+    IsKNearest (fun v => d q v) k (specRun ops) ((g.nearestK d eps ordq q k).1.map (fun x => x.2.val)) ∧
+    IsRNearest (fun v => d q v) rad (specRun ops) ((g.nearestR d ordq q rad).1.map (fun x => x.2.val)) := by
+  intro g ops d
+  have hl0 : (g0.list.map (fun e => e.val)).Perm [] := by simp [Gnat.list, h0]
+  obtain ⟨hinv, hperm⟩ := gnatRunSeg_spec hord P segs hall ctx0 g0 us [] hP0 hg0 hl0
+  have hlast : IsMetric d ∧ ∀ a, d a a = 0 := by
+    have : ∀ (segs : List (Ctx α D U × List (Op α))) (c0 : Ctx α D U),
+        (∀ s ∈ segs, CtxOK s.1 ∧ MetricOK s.1.dist ∧ s.1.P = P) → IsMetric c0.dist → (∀ a, c0.dist a a = 0) →
+        IsMetric (lastCtx c0 segs).dist ∧ ∀ a, (lastCtx c0 segs).dist a a = 0 := by
+      intro segs
+      induction segs with
+      | nil => intro c0 _ h1 h2; exact ⟨h1, h2⟩
+      | cons s rest ih =>
+        intro c0 hall h1 h2
+        obtain ⟨c, o⟩ := s
+        have hc := (hall (c, o) (by simp)).2.1
+        exact ih c (fun s hs => hall s (by simp [hs])) hc.metric hc.self
+    exact this segs ctx0 hall hm0 hs0
+  obtain ⟨hwf, hsz⟩ := Gnat.Inv.wf _ _ hinv
+  obtain ⟨k1, _, _⟩ := nearestK_exact hlast.1 hlast.2 g hwf q k eps hordq
+  obtain ⟨r1, _, _⟩ := nearestR_exact hlast.1 g hwf q rad hordq
+  refine ⟨hinv, ?_, hperm, ?_, ?_⟩
+  · have hlen := hperm.length_eq
+    rw [List.length_map] at hlen
+    rw [hsz]; exact hlen
+  · have := isKNearest_vals (fun v => d q v) k g.list _ (specRun ops) k1 hperm
+    rw [List.map_map] at this
+    exact this
+  · have := isRNearest_vals (fun v => d q v) rad g.list _ (specRun ops) r1 hperm
+    rw [List.map_map] at this
+    exact this
+
+/-- non-vacuity: two segments (the L1 context set twice: the second `setDistanceFunction` finds a tree and rebuilds
+it), a bulk add that splits, the removal of a pivot and of an absent value; the final size is pinned down. -/
+example (us : List Nat) :
+    (gnatRunSeg (childOrder true) [(sampleCtx, [.addv [(1, 2), (3, 4), (5, 6), (0, 0), (9, 9)], .remove (1, 2)]),
+        (sampleCtx, [.add (7, 7), .remove (8, 8)])] (sampleG0, us)).1.size = 5 :=
+  (gnat_history_with_set_distance_function sampleCtx.P _
+    (by intro s hs; simp at hs; rcases hs with rfl | rfl <;> exact ⟨sampleCtx_ok.1, sampleCtx_ok.2, rfl⟩)
+    (childOrder_perm true) (childOrder_perm true) sampleCtx rfl sampleCtx_ok.2.metric sampleCtx_ok.2.self sampleG0
+    ⟨rfl, by simp [sampleG0], ⟨rfl, rfl⟩⟩ rfl us (0, 0) 0 1 0).2.1
+
+end Ctor
 
 /-! ## the result vector is an in/out parameter -/
 
